@@ -22,7 +22,8 @@ Plan gen_c28(sk::Rng& r, Tier) {
             // size, ttl, pow kind (0 valid, 1 invalid, 2 missing), TOKEN header (0 none, 1 fresh value), source host, withhold body, filename kind
             const std::int64_t size = flood ? r.range(1, 200) : r.pick<std::int64_t>({0, 1, 100, kCap - 1, kCap, kCap + 1, kCap * 4, 1 << 30});
             const std::int64_t ttl = flood ? 60 : r.pick<std::int64_t>({0, 1, kMinTtl - 1, kMinTtl, 60, kMaxTtl, kMaxTtl + 1, 1 << 30});
-            op.a = {size, ttl, flood ? 0 : r.pick<std::int64_t>({0, 0, 1, 2}), static_cast<std::int64_t>(r.below(2)), static_cast<std::int64_t>(r.below(flood ? 1 : 2)),
+            // third element = proof-of-work: 0 valid, 1 invalid, 2 missing, 3 one zero bit short
+            op.a = {size, ttl, flood ? 0 : r.pick<std::int64_t>({0, 0, 1, 2, 3}), static_cast<std::int64_t>(r.below(2)), static_cast<std::int64_t>(r.below(flood ? 1 : 2)),
                     static_cast<std::int64_t>(size > kCap ? r.below(2) : 0), static_cast<std::int64_t>(r.below(3))};
         } else if (c < (flood ? 85 : 65)) { op.k = "fetch"; op.a = {static_cast<std::int64_t>(r.below(2)), static_cast<std::int64_t>(r.below(flood ? 1 : 2))}; }
         else { op.k = "wait"; op.a = {r.pick<std::int64_t>({100, 1000, 5000, 29000, 31000})}; }
@@ -74,7 +75,8 @@ void exec_c28(const Plan& p, Ctx& ctx) {
             std::vector<std::pair<std::string, std::string>> f{{"COMMAND", "STORE"}, {"TTL", std::to_string(ttl)}};
             if (!path.empty()) f.push_back({"PATH", path});
             std::uint64_t nonce = 0;
-            if (pow_kind != 2) { nonce = ref_solve_store_pow(body, sanitized, 6, pow_kind == 0); f.push_back({"STORE-POW", std::to_string(nonce)}); }
+            if (pow_kind == 3) { for (nonce = 1; leading_zero_bits(store_pow_digest(body, sanitized, nonce)) != 5; ++nonce) {} f.push_back({"STORE-POW", std::to_string(nonce)}); ctx.boundary("store_pow_one_bit_short"); }
+            else if (pow_kind != 2) { nonce = ref_solve_store_pow(body, sanitized, 6, pow_kind == 0); f.push_back({"STORE-POW", std::to_string(nonce)}); }
             if (op.at(3)) f.push_back({"TOKEN", "forged-" + std::to_string(uniq) + "-" + std::to_string(sk::now_ns())});
             f.push_back({"PAYLOAD-LENGTH", std::to_string(declared)});
             const bool over_cap = declared > kCap;
